@@ -252,3 +252,31 @@ PROPS["C22"] = {
                     "statuses are identified by a number carried in their timestamp / total_gas field"],
     "harnesses": _c22_harnesses(),
 }
+
+_AU = "fuel_gas_price_algorithm::v1::AlgorithmUpdaterV1::"
+_C34_CUTS = ["AlgorithmUpdaterV1::p, ::d -> any i128 (P and D terms: i128 division by a symbolic component)",
+             "AlgorithmUpdaterV1::da_change -> any value within +-max_change() (contract; the real function multiplies two 128-bit values with overflow detection)",
+             "AlgorithmUpdaterV1::da_portion_of_fee -> any u128", "update_projected_da_cost / recalculate_projected_cost -> projected cost becomes arbitrary (u128 x u128 products; it only feeds P/D)"]
+PROPS["C34"] = {
+    "crate": "algo",
+    "level": "model_checking",
+    "explanation": "One update step from ANY updater state (all fields symbolic, so every history is covered): a skipped height is "
+                   "rejected with the state bit-identical; the execution price keeps its floor and per-block rate; the DA price keeps "
+                   "its floor, ceiling and per-block rate; activity stays in range; DA record updates keep the same DA bounds.",
+    "bounds": "one step; all u64/u128/i128/u16 field values; block capacity fixed to 30,000,000 in the quick tier (the fullness "
+              "division only selects the direction); gas price factor 1 and 100; DA record: <= 2 recorded heights, recorded bytes 0 / 1000",
+    "outside": "da_change itself is replaced by its contract |change| <= price*percent/100 (not decided: 128-bit saturating multiply), "
+               "the values of the P/D terms and of the reward/cost bookkeeping (cut to arbitrary values, so the bounds hold for any), "
+               "the gas price service wrapper (tokio + storage)",
+    "assumptions": ["gas_price_factor != 0 (NonZeroU64)", "chain_activity <= max_activity (established by L2ActivityTracker::new)"],
+    "harnesses": [
+        H("c34_skipped_height", [_AU + "update_l2_block_data"], "any updater, any height != next", timeout={"quick": 1200, "thorough": 3600}),
+        H("c34_exec_step_cap30m", [_AU + "update_exec_gas_price", _AU + "exec_change", _AU + "min_scaled_exec_gas_price"], "any updater, any used gas, capacity 30,000,000", timeout={"quick": 1800, "thorough": 3600}),
+        H("c34_da_step_f1", [_AU + "update_da_gas_price", _AU + "da_change_accounting_for_activity", _AU + "max_change", _AU + "min_scaled_da_gas_price", _AU + "max_scaled_da_gas_price"], "any updater, factor 1", cuts=_C34_CUTS, timeout={"quick": 1200, "thorough": 3600}),
+        H("c34_da_step_f100", [_AU + "update_da_gas_price"], "any updater, factor 100", cuts=_C34_CUTS, timeout={"quick": 1200, "thorough": 3600}),
+        H("c34_activity_cap30m", [_AU + "update_activity", "L2ActivityTracker::update", _AU + "da_change_accounting_for_activity"], "any updater, capacity 30,000,000", timeout={"quick": 1200, "thorough": 3600}),
+        H("c34_da_record_f1_b1000", [_AU + "update_da_record_data", _AU + "da_block_update", _AU + "update_unrecorded_block_bytes"], "<= 2 heights, 1000 recorded bytes", cuts=_C34_CUTS, timeout={"quick": 1800, "thorough": 3600}),
+        H("c34_da_record_f100_b0", [_AU + "update_da_record_data"], "<= 2 heights, 0 recorded bytes", cuts=_C34_CUTS, timeout={"quick": 1800, "thorough": 3600}),
+        H("c34_l2_update_f1", [_AU + "update_l2_block_data"], "any updater, next height, capacity 30,000,000, factor 1", cuts=_C34_CUTS, tiers=("thorough",), timeout={"thorough": 7200}),
+    ],
+}
